@@ -22,9 +22,9 @@ Latitude (what the statement does not fix, so the oracle does not demand it):
  - the sign/size of a parameter whose contribution to the spectrum is below PAR_TOL of the largest term;
  - cnls is an iterative optimiser started from fixed values: it is only asked to reproduce spectra whose parameters
    lie within a decade of those start values, to CNLS_*_TOL (its termination criteria, not rounding, set the level).
+8 % of the instances have some generating variables exactly zero (element absent from the generating circuit; counted as
+"regime:absent-element" in the evidence, judged like every other instance).
 Side regimes get their own mechanism keys (structural features of the instance, never seeds or values):
- - ':absent-element'  some generating variable is exactly zero (element absent from the generating circuit; the
-   statement's quantifier speaks of magnitudes over six decades, exact zero is its boundary);
  - '<real-inv|imaginary-inv>-placeholder-constants'  the matrix-inversion real and imaginary tests leave hard-coded
    1e-18 / 1e18 placeholders in C, L (real-inv) or the parallel R (imaginary-inv on admittance); instances where the
    harness predicts their effect above ARTEFACT_MAX (kk_model.placeholder_artefact) are judged under that key.
@@ -66,7 +66,8 @@ PAR_TOL = 1e-4        # linear variants: contribution-weighted parameter error r
 TAU_TOL = 1e-10       # relative
 CNLS_RES_TOL = 1e-2
 CNLS_PAR_TOL = 1e-1
-ARTEFACT_MAX = 1e-8   # predicted effect of the real-inv placeholder constants above which the instance is keyed separately
+ARTEFACT_MAX = 1e-6   # predicted effect (rel. residual) of the -inv placeholder constants above which the instance is keyed separately;
+                      # 100x below RES_TOL; corresponds to |Z|*omega > 1e12 (real-inv) or |Z| > 1e12 ohm (imaginary-inv on Y)
 
 # Conditioning gate.  ratio and perdec are the property's own words (DESIGN C07 (i), (ii)); the rest bounds the rounding
 # error of the solver class in units of machine epsilon (kk_model.gate_stats):
@@ -266,10 +267,9 @@ def check_instance(inst):
     known_cell = test == "cnls" and adm
     viol = []
     replay = {"kind": "explicit", "inst": {k: v for k, v in inst.items() if k != "meta"}}
-    suffix = "".join(":" + t for t in tags)
 
     def bad(mech, msg, key=None):
-        viol.append({"key": key or f"C07/{mech}:{test}/{rep}{suffix}",
+        viol.append({"key": key or f"C07/{mech}:{test}/{rep}",
                      "msg": f"[{cname} N={len(f)} f={f.min():.3g}..{f.max():.3g} Hz num_RC={n} log_F_ext={x:.3g}] {msg}",
                      "witness": {"cell": cname, "gate": {k: float(v) for k, v in st.items()}, "inside_gate": bool(inside), "replay_case": replay}})
 
@@ -280,7 +280,7 @@ def check_instance(inst):
     except Exception as e:  # the library must complete on every instance, in or out of the gate
         o = monitors.exception_origin(e)
         bad("raised", f"{type(e).__name__} at {o['file']}:{o['func']}: {e}"[:400] + "\n" + monitors.tb_tail(e, 4),
-            key=f"C07/raised:{test}/{rep}:{type(e).__name__}@{o['func']}{suffix}")
+            key=f"C07/raised:{test}/{rep}:{type(e).__name__}@{o['func']}")
         return out
 
     obs = {}
